@@ -600,6 +600,7 @@ def install_shims():
                 pass
         return r
 
+    add_out_msg.__wrapped__ = orig_add      # the line-gated scheduler (C15) monitors the library's own code object
     peer_mod.PeerConnection.add_out_msg = add_out_msg
     orig_hook = real_threading.excepthook
 
